@@ -442,6 +442,153 @@ pub fn cut_outcome(c: &CutCase) -> Outcome {
     o
 }
 
+// --------------------------------------------------------------------------------------------
+// real transports: connect / talk / disconnect cycles against a long-lived socket
+
+#[derive(Debug, Clone, Serialize, Deserialize, PartialEq, Eq, Hash)]
+pub struct CycleCase {
+    pub kind: Kind,
+    pub transport: crate::realnet::Transport,
+    pub cycles: usize,
+    /// the client resets (SO_LINGER 0 is not available here: it simply drops mid-message)
+    pub mid_message: bool,
+}
+
+pub fn cycle_outcome(c: &CycleCase) -> Outcome {
+    use crate::realnet;
+    use std::time::Duration;
+    let mut o = Outcome::new(hash_of(c));
+    o.nontrivial = true;
+    o.class("real-transport-cycles");
+    let c2 = c.clone();
+    let (r, panics) = capture_panics(|| {
+        realnet::run_net(async move {
+            let c = c2;
+            let kind = c.kind;
+            let who = kind.name();
+            let mut f: Vec<Failure> = vec![];
+            let mut s = crate::sim::AnySocket::new(kind, None);
+            let ep = match realnet::sock_bind(&mut s, &c.transport.bind_text()).await {
+                Ok(e) => e.to_string(),
+                Err(e) => {
+                    fail!(f, format!("C16/{}/cycles/setup-bind", who), "{:?}", e);
+                    return f;
+                }
+            };
+            // one permanent healthy peer so that round-robin senders always have somebody
+            let mut perm = match realnet::raw_connect(&ep).await {
+                Ok(mut rc) => {
+                    if let Err(e) = rc.handshake(kind.a_compatible_peer(), None).await {
+                        fail!(f, format!("C16/{}/cycles/setup", who), "{}", e);
+                        return f;
+                    }
+                    rc
+                }
+                Err(e) => {
+                    fail!(f, format!("C16/{}/cycles/setup", who), "{}", e);
+                    return f;
+                }
+            };
+            let mut tagn = 0usize;
+            let mut fd_ref = 0usize;
+            let mut task_ref = 0usize;
+            let warm = 10usize;
+            for cycle in 0..(warm + c.cycles) {
+                tagn += 1;
+                match realnet::raw_connect(&ep).await {
+                    Ok(mut rc) => {
+                        if let Err(e) = rc.handshake(kind.a_compatible_peer(), None).await {
+                            fail!(f, format!("C16/{}/cycles/handshake-fails-after-many-cycles", who), "cycle {}: {}", cycle, e);
+                            break;
+                        }
+                        if kind != Kind::Req {
+                            if let Err(e) = realnet::exchange(&mut s, kind, &mut rc, &format!("c{}", tagn)).await {
+                                fail!(f, format!("C16/{}/cycles/exchange-fails-after-many-cycles", who), "cycle {}: {}", cycle, e);
+                                break;
+                            }
+                        }
+                        if c.mid_message {
+                            // leave in the middle of a message
+                            let _ = rc.write(&[0x01, 0x05, b'a', b'b']).await;
+                        }
+                        drop(rc);
+                    }
+                    Err(e) => {
+                        fail!(f, format!("C16/{}/cycles/connect-fails-after-many-cycles", who), "cycle {}: {}", cycle, e);
+                        break;
+                    }
+                }
+                // the application keeps using the socket: a receive loop / a send now and then
+                if kind.fair_queue_recv() {
+                    use zeromq::SocketRecv;
+                    for _ in 0..3 {
+                        let _ = tokio::time::timeout(Duration::from_millis(2), s.recv()).await;
+                    }
+                } else if kind != Kind::Req {
+                    let _ = realnet::exchange(&mut s, kind, &mut perm, &format!("p{}", tagn)).await;
+                    let _ = realnet::exchange(&mut s, kind, &mut perm, &format!("q{}", tagn)).await;
+                } else {
+                    // REQ: a few requests; whoever receives one answers (the permanent peer),
+                    // a request that went to a departed peer ends in an error from recv
+                    use zeromq::{SocketRecv, SocketSend};
+                    for _ in 0..3 {
+                        let n = perm.messages().len();
+                        if s.send(crate::sim::to_msg(&[b"q".to_vec()])).await.is_ok() {
+                            if perm.await_messages(n + 1, Duration::from_millis(5)).await {
+                                let _ = perm.send_msg(&[vec![], b"a".to_vec()]).await;
+                            }
+                            let _ = tokio::time::timeout(Duration::from_millis(300), s.recv()).await;
+                        }
+                    }
+                }
+                if cycle + 1 == warm {
+                    // reference point after the warm-up
+                    let mut last = (0usize, 0usize);
+                    let _ = realnet::eventually(Duration::from_millis(300), || {
+                        let now = (realnet::fd_count(), realnet::alive_tasks());
+                        let stable = now == last;
+                        last = now;
+                        stable
+                    })
+                    .await;
+                    fd_ref = realnet::fd_count();
+                    task_ref = realnet::alive_tasks();
+                }
+            }
+            if f.is_empty() {
+                let ok = realnet::eventually(Duration::from_secs(3), || realnet::fd_count() <= fd_ref + 3).await;
+                if !ok {
+                    fail!(
+                        f,
+                        format!("C16/{}/cycles/descriptors-accumulate", who),
+                        "{} open descriptors after {} connect/disconnect cycles, {} after {} more cycles ({:?}, clients leave {})",
+                        fd_ref,
+                        warm,
+                        realnet::fd_count(),
+                        c.cycles,
+                        c.transport,
+                        if c.mid_message { "in the middle of a message" } else { "between messages" }
+                    );
+                }
+                let ok = realnet::eventually(Duration::from_secs(3), || realnet::alive_tasks() <= task_ref + 2).await;
+                if !ok {
+                    fail!(f, format!("C16/{}/cycles/tasks-accumulate", who), "{} runtime tasks alive after {} cycles, {} after {} more", task_ref, warm, realnet::alive_tasks(), c.cycles);
+                }
+            }
+            drop(perm);
+            let _ = realnet::sock_close(s).await;
+            f
+        })
+    });
+    if let Some(f) = r {
+        o.failures = f;
+    }
+    for p in panics {
+        o.fail(format!("C16/panic/{}", panic_sig(&p)), format!("{:?}: {}", c, p));
+    }
+    o
+}
+
 pub fn enumerated() -> Vec<CutCase> {
     let msgs = vec![vec![6usize, 0, 300], vec![2]];
     let mut v = vec![];
@@ -518,6 +665,26 @@ pub fn run(ctx: &Ctx) -> (Report, PropertyMeta) {
     report.sections.push(json!({"part": "random cut positions / kinds / victim traffic / healthy peer counts / tails", "cases": n}));
     report.merge(r);
 
+    // real transports (one thread: see C17)
+    let mut ctx1 = ctx.clone();
+    ctx1.threads = 1;
+    let cycles = t.pick(40, 2000);
+    let mut cc = vec![];
+    for kind in ALL_KINDS {
+        for transport in [crate::realnet::Transport::TcpV4, crate::realnet::Transport::Ipc] {
+            for mid_message in [false, true] {
+                if t == Tier::Quick && mid_message && transport == crate::realnet::Transport::Ipc {
+                    continue;
+                }
+                cc.push(CycleCase { kind, transport, cycles, mid_message });
+            }
+        }
+    }
+    let r = run_cases(&ctx1, "cycles", &cc, cycle_outcome);
+    report.exhaustive_parts.push(format!("real transports: 9 socket types x {{TCP, IPC}} x clients leaving between / inside messages, {} connect-handshake-talk-disconnect cycles each against one long-lived socket: {} cases", cycles, cc.len()));
+    report.merge(r);
+    crate::realnet::cleanup_scratch();
+
     let total = report.evaluations;
     health(&mut report, "cut-inside-message", total, 150);
     health(&mut report, "cut-inside-handshake", total, 100);
@@ -525,7 +692,7 @@ pub fn run(ctx: &Ctx) -> (Report, PropertyMeta) {
 
     let meta = PropertyMeta {
         level: "fault_enumeration",
-        rule: "every socket type with 1..3 healthy raw peers and one victim whose connection ends at an enumerated / generated byte position of its stream (inside the greeting, between greeting and READY, inside READY, between messages, inside flags / size / body, between frames of a multipart message) by orderly close (EOF, writes fail afterwards), reset (read error, writes fail) or write-only failure, followed by rounds of healthy-peer traffic and application calls (recv until pending; sends that rotate onto / address the victim; publishes). Oracle: (a) every healthy peer's message is still delivered exactly once in order, publishes reach healthy subscribers, successful sends land on healthy peers, and only the victim's COMPLETE messages surface; (b) recv reports at most one error for the event and the socket always reaches quiescence; (c) once the socket has observed the end (a read returned EOF/error or a write failed) no send fails because it was routed to that peer, and ROUTER send to its identity fails; (d) after observation both connection halves the library held are dropped; a connection that ends during the handshake is never admitted and is released. Non-trivial = cut strictly inside a message or inside the handshake; distinct by case".into(),
+        rule: "every socket type with 1..3 healthy raw peers and one victim whose connection ends at an enumerated / generated byte position of its stream (inside the greeting, between greeting and READY, inside READY, between messages, inside flags / size / body, between frames of a multipart message) by orderly close (EOF, writes fail afterwards), reset (read error, writes fail) or write-only failure, followed by rounds of healthy-peer traffic and application calls (recv until pending; sends that rotate onto / address the victim; publishes). Oracle: (a) every healthy peer's message is still delivered exactly once in order, publishes reach healthy subscribers, successful sends land on healthy peers, and only the victim's COMPLETE messages surface; (b) recv reports at most one error for the event and the socket always reaches quiescence; (c) once the socket has observed the end (a read returned EOF/error or a write failed) no send fails because it was routed to that peer, and ROUTER send to its identity fails; (d) after observation both connection halves the library held are dropped; a connection that ends during the handshake is never admitted and is released. Real transports: after N connect-handshake-talk-disconnect cycles over TCP and IPC against a long-lived socket of every type the process's open-descriptor count and the runtime's alive-task count are within a constant of their values after 10 cycles. Non-trivial = cut strictly inside a message or inside the handshake; distinct by case".into(),
         assumptions: vec![
             "a closed connection is modelled as EOF on reads plus BrokenPipe on writes (a fully closed TCP peer); half-close is not generated".into(),
             "'observed' is measured at the pipe: a read returned the end marker or a write returned the injected error".into(),
@@ -538,6 +705,11 @@ pub fn run(ctx: &Ctx) -> (Report, PropertyMeta) {
 pub fn replay(_ctx: &Ctx, kind: &str, case: &Value) -> Vec<Failure> {
     match kind {
         "cut" => parse_case::<CutCase>(case).map(|c| cut_outcome(&c).failures),
+        "cycles" => parse_case::<CycleCase>(case).map(|c| {
+            let r = cycle_outcome(&c).failures;
+            crate::realnet::cleanup_scratch();
+            r
+        }),
         _ => Err(vec![Failure::new("replay/unknown-kind", kind.to_string())]),
     }
     .unwrap_or_else(|e| e)
